@@ -430,3 +430,36 @@ func RecvName0(fn *ssa.Function) string {
 	}
 	return ""
 }
+
+// ReachableAfter reports whether instruction b can execute after instruction a (same function).
+func ReachableAfter(a, b ssa.Instruction) bool {
+	if a.Parent() != b.Parent() {
+		return false
+	}
+	if a.Block() == b.Block() && instrIndex(a) < instrIndex(b) {
+		return true
+	}
+	seen := map[*ssa.BasicBlock]bool{}
+	var walk func(x *ssa.BasicBlock) bool
+	walk = func(x *ssa.BasicBlock) bool {
+		if seen[x] {
+			return false
+		}
+		seen[x] = true
+		if x == b.Block() {
+			return true
+		}
+		for _, s := range x.Succs {
+			if walk(s) {
+				return true
+			}
+		}
+		return false
+	}
+	for _, s := range a.Block().Succs {
+		if walk(s) {
+			return true
+		}
+	}
+	return false
+}
